@@ -16,6 +16,7 @@ import OdlModel.Lemmas.Deriv
 import OdlModel.Lemmas.UfuncDeriv
 import OdlModel.Lemmas.DerivAnalytic
 import OdlModel.Lemmas.DerivReal
+import OdlModel.Lemmas.DerivLeaves
 
 open OdlModel.Deriv OdlModel.Deriv.Impl OdlModel.Deriv.Dual
 
@@ -475,3 +476,91 @@ example : ∀ (x : Vec ℝ) (k : Nat),
   intro x k; simp [Impl.run]; ring
 
 end analytic
+
+section leaves
+open OdlModel.DerivAnalytic
+open Filter Topology
+
+/-- ROUND 4 — the norm-type leaves (`NormOperator`, `DistOperator`, the functional `L2Norm`
+through `Functional.derivative = gradient(x).T`, `ComplexModulus` in the `C = R²` sense,
+`PointwiseNorm` with exponent 2), EXECUTED at `Float` by the driver (`leaf` op) and compared bit for
+bit with the code (stream `leaf`), here read at `ℝ` with `Real.sqrt`: for every leaf, every
+dimension, base point `x`, direction `d` and output entry `k` at which the sum of squares under the
+root is non-zero (i.e. away from the non-differentiable set: `x ≠ 0`, `x ≠ y`, `z_k ≠ 0`,
+`F(p_k) ≠ 0`), `derivative(x)` does not raise and `s ↦ op(x + s d)_k` is differentiable at `0`
+with derivative `derivative(x)(d)_k` — as coded: `InnerProductOperator((1/‖x‖)·x)`,
+`InnerProductOperator((1/dist)·(x - y))`, `(Re x·Re d + Im x·Im d)/|x|`,
+`PointwiseInner(F/|F|)`.  Gâteaux form (with `leaf_deriv_is_linear`), as for
+`model_line_hasDerivAt`; `HasFDerivAt` on `ℝⁿ` is not formalised. -/
+theorem C06.leaf_line_hasDerivAt [DecidableEq ℝ] (l : Leaf ℝ) (x d : Vec ℝ) (k : Nat)
+    (hk : k < l.ran) (hs : l.ssq x k ≠ 0) :
+    ∃ j, l.deriv x = some j ∧
+      HasDerivAt (fun s : ℝ => l.run (fun m => x m + s * d m) k) (j.run d k) 0 :=
+  leaf_hasDerivAt_line l x d k hk hs
+
+/-- Non-vacuity: `DistOperator((1, 1))` at `x = (4, 5)` (distance 5) and `PointwiseNorm` on
+`rn(1)^2` at `F = (3, 4)` satisfy the hypotheses. -/
+example : (Leaf.dist 2 (fun _ => 1) : Leaf ℝ).ssq (fun j => if j = 0 then 4 else 5) 0 ≠ 0 ∧
+    (0 < (Leaf.dist 2 (fun _ => 1) : Leaf ℝ).ran) ∧
+    (Leaf.pwnorm 2 1 : Leaf ℝ).ssq (fun j => if j = 0 then 3 else 4) 0 ≠ 0 ∧
+    (Leaf.pwnorm 2 1 : Leaf ℝ).wf = true := by
+  refine ⟨?_, by decide, ?_, by decide⟩ <;> norm_num [Leaf.ssq, sumTo]
+
+/-- The statement of C06 in its own words for the norm-type leaves: the central difference
+quotient converges to `derivative(x)(d)` entry-wise, away from the non-differentiable set. -/
+theorem C06.leaf_central_diff_tendsto [DecidableEq ℝ] (l : Leaf ℝ) (x d : Vec ℝ) (k : Nat)
+    (hk : k < l.ran) (hs : l.ssq x k ≠ 0) :
+    ∃ j, l.deriv x = some j ∧
+      Tendsto (fun h : ℝ => (2 * h)⁻¹ • (l.run (fun m => x m + h * d m) k
+          - l.run (fun m => x m + (-h) * d m) k)) (𝓝[≠] 0) (𝓝 (j.run d k)) := by
+  obtain ⟨j, e, hd⟩ := C06.leaf_line_hasDerivAt l x d k hk hs
+  exact ⟨j, e, central_diff_tendsto_of_hasDerivAt
+    (fun s : ℝ => l.run (fun m => x m + s * d m) k) (j.run d k) hd⟩
+
+/-- Non-vacuity: `ComplexModulus(cn(1))` at `z = 3 + 4i`. -/
+example : (Leaf.cmod 1 : Leaf ℝ).ssq (fun j => if j = 0 then 3 else 4) 0 ≠ 0 := by
+  norm_num [Leaf.ssq]
+
+/-- Whatever `derivative(x)` returns for a norm-type leaf (at ANY point, also the singular ones
+where it does not raise) is a linear operator from `op.domain` to `op.range`. -/
+theorem C06.leaf_deriv_is_linear [DecidableEq ℝ] (l : Leaf ℝ) (x : Vec ℝ) (j : Lin ℝ)
+    (hj : l.deriv x = some j) :
+    j.dom = l.dom ∧ j.ran = l.ran ∧ ∀ (a : ℝ) (u v : Vec ℝ) (k : Nat),
+      j.run (fun t => a * u t + v t) k = a * j.run u k + j.run v k := by
+  refine ⟨?_, ?_, lin_linear j⟩
+  all_goals
+    cases l <;> simp only [Leaf.deriv] at hj <;> (try split at hj) <;>
+      simp only [Option.some.injEq, reduceCtorEq] at hj <;> subst hj <;> rfl
+
+/-- Non-vacuity: `L2Norm(rn(2)).derivative(0)` returns (the zero functional). -/
+example [DecidableEq ℝ] : ∃ j, (Leaf.l2norm 2 : Leaf ℝ).deriv (fun _ => 0) = some j := by
+  simp [Leaf.deriv, Leaf.run, Leaf.ssq, sumTo, hasSqrt_real]
+
+/-- `derivative` RAISES exactly at the documented non-differentiable point: `NormOperator` iff
+`x = 0`, `DistOperator(y)` iff `x = y` (entries of the space), and the other three leaves never
+raise (`L2Norm` returns the zero functional at `0`, `ComplexModulus` divides by zero,
+`PointwiseNorm` leaves the zero components undivided). -/
+theorem C06.leaf_deriv_raises_iff [DecidableEq ℝ] (n m : Nat) (y x : Vec ℝ) :
+    ((Leaf.norm n : Leaf ℝ).deriv x = none ↔ ∀ j, j < n → x j = 0) ∧
+    ((Leaf.dist n y).deriv x = none ↔ ∀ j, j < n → x j = y j) ∧
+    (Leaf.l2norm n : Leaf ℝ).deriv x ≠ none ∧ (Leaf.cmod n : Leaf ℝ).deriv x ≠ none ∧
+    (Leaf.pwnorm m n : Leaf ℝ).deriv x ≠ none := by
+  refine ⟨?_, ?_, l2norm_deriv_ne_none n x, by simp [Leaf.deriv], by simp [Leaf.deriv]⟩
+  · rw [norm_deriv_none_iff, Real.sqrt_eq_zero (sumTo_sq_nonneg n x)]
+    exact sumTo_sq_eq_zero n x
+  · have h' : (∀ j, j < n → x j = y j) ↔ ∀ j, j < n → y j - x j = 0 := by
+      constructor <;> intro hh j hj <;> have := hh j hj <;> linarith
+    rw [dist_deriv_none_iff, Real.sqrt_eq_zero (sumTo_sq_nonneg n (fun j => y j - x j)), h']
+    exact sumTo_sq_eq_zero n (fun j => y j - x j)
+
+/-- Non-vacuity / sharpness: `NormOperator(rn(2)).derivative((0, 0))` raises, at `(3, 4)` not. -/
+example [DecidableEq ℝ] : (Leaf.norm 2 : Leaf ℝ).deriv (fun _ => 0) = none ∧
+    (Leaf.norm 2 : Leaf ℝ).deriv (fun j => if j = 0 then 3 else 4) ≠ none := by
+  have h := C06.leaf_deriv_raises_iff 2 0 (fun _ => 0)
+  constructor
+  · exact (h (fun _ => 0)).1.mpr (fun _ _ => rfl)
+  · intro hn
+    have := (h (fun j => if j = 0 then 3 else 4)).1.mp hn 0 (by decide)
+    norm_num at this
+
+end leaves
